@@ -158,6 +158,17 @@ static bool edn_value_equal_internal(const edn_value_t* a, const edn_value_t* b,
         case EDN_TYPE_RATIO:
             return a->as.ratio.numerator == b->as.ratio.numerator &&
                    a->as.ratio.denominator == b->as.ratio.denominator;
+
+        case EDN_TYPE_BIGRATIO:
+            if (a->as.bigratio.numer_negative != b->as.bigratio.numer_negative ||
+                a->as.bigratio.numer_length != b->as.bigratio.numer_length ||
+                a->as.bigratio.denom_length != b->as.bigratio.denom_length) {
+                return false;
+            }
+            return memcmp(a->as.bigratio.numerator, b->as.bigratio.numerator,
+                          a->as.bigratio.numer_length) == 0 &&
+                   memcmp(a->as.bigratio.denominator, b->as.bigratio.denominator,
+                          a->as.bigratio.denom_length) == 0;
 #endif
 
         case EDN_TYPE_CHARACTER:
@@ -541,6 +552,22 @@ static uint64_t edn_value_hash_internal(const edn_value_t* value) {
             }
             for (size_t i = 0; i < sizeof(int64_t); i++) {
                 hash ^= (value->as.ratio.denominator >> (i * 8)) & 0xFF;
+                hash *= FNV_PRIME;
+            }
+            break;
+        }
+
+        case EDN_TYPE_BIGRATIO: {
+            hash ^= value->as.bigratio.numer_negative ? 1 : 0;
+            hash *= FNV_PRIME;
+            for (size_t i = 0; i < value->as.bigratio.numer_length; i++) {
+                hash ^= (uint8_t) value->as.bigratio.numerator[i];
+                hash *= FNV_PRIME;
+            }
+            hash ^= (uint8_t) '/';
+            hash *= FNV_PRIME;
+            for (size_t i = 0; i < value->as.bigratio.denom_length; i++) {
+                hash ^= (uint8_t) value->as.bigratio.denominator[i];
                 hash *= FNV_PRIME;
             }
             break;
